@@ -4,6 +4,7 @@ at corner 0; for a planar convex quadrilateral the normals at all corners are po
 one another, so the scale-free signature is only rotated.
 -/
 import CBV.Lemmas.C14Box
+import CBV.Gen.TC14
 
 namespace CBV.C14
 open CBV
